@@ -334,7 +334,14 @@ func (s *dSys) canon() string {
 		sort.Strings(v)
 		subs = append(subs, fmt.Sprintf("x=%v:%v", d.exclusive, v))
 	}
-	return fmt.Sprintf("kv=%v|vis=%v|pend=%v|conn=%v|subs=%v", sortedKV(s.f.KV), sortedKV(s.visible), s.pending, s.f.Connected, subs)
+	// the registry's own cached views (the base of its next reload diff)
+	cached := ""
+	for _, k := range []string{dKey, dKey2} {
+		if c := internal.VerifCached(dEndpoints, k); c != nil {
+			cached += fmt.Sprintf("%s%v;", k, sortedKV(c))
+		}
+	}
+	return fmt.Sprintf("kv=%v|vis=%v|pend=%v|conn=%v|subs=%v|cached=%s", sortedKV(s.f.KV), sortedKV(s.visible), s.pending, s.f.Connected, subs, cached)
 }
 
 func TestVerifDiscovHistories(t *testing.T) {
